@@ -100,8 +100,9 @@ class Rig:
             return "not-a-cookie"
         return None
 
-    def request(self, path, query, host, cookie_kind):
-        """returns dict(status, body, eval_calls, inner_ran, logs, set_cookie)"""
+    def request(self, path, query, host, cookie_kind, cookie_raw=None):
+        """returns dict(status, body, eval_calls, inner_ran, logs, set_cookie); `cookie_raw` = a cookie
+        value to present as is (one the server issued earlier), overriding `cookie_kind`"""
         from werkzeug import debug as debug_mod
         from werkzeug.test import create_environ
 
@@ -110,7 +111,7 @@ class Rig:
             environ.pop("HTTP_HOST", None)
         else:
             environ["HTTP_HOST"] = host
-        cv = self.cookie_value(cookie_kind)
+        cv = cookie_raw if cookie_raw is not None else self.cookie_value(cookie_kind)
         if cv is not None:
             environ["HTTP_COOKIE"] = f"{self.cookie_name}={cv}"
         seen = {}
@@ -137,6 +138,17 @@ class Rig:
             "logs": logs,
             "set_cookie": [v for k, v in seen.get("headers", []) if k.lower() == "set-cookie"],
         }
+
+    def issued_cookie(self, res):
+        """the PIN cookie value a response set (None when it set none or deleted it)"""
+        from http.cookies import SimpleCookie
+
+        for raw in res["set_cookie"]:
+            c = SimpleCookie()
+            c.load(raw)
+            if self.cookie_name in c and c[self.cookie_name].value and "|" in c[self.cookie_name].value:
+                return c[self.cookie_name].value
+        return None
 
     def build_query(self, cmd, secret, frame, extra=None):
         q = {}
